@@ -335,6 +335,10 @@ def typeToIdlAll : List TyShape → List IdlTy
   | f :: fs => typeToIdl f :: typeToIdlAll fs
 end
 
+/-- `#[type_to_idl(skip)]` on field number `k` of a struct: that field and every field after it
+are hidden (`idl_struct_type_def`: `take_while(!is_skip)`), so the IDL describes the first `k` fields. -/
+def typeToIdlSkip (fs : List TyShape) (k : Nat) : IdlTy := .struct (typeToIdlAll (fs.take k))
+
 /-! ## IDL-driven decoder -/
 
 /-- Byte width of the number types. -/
